@@ -372,6 +372,9 @@ def _dereify_agenda(g: Graph, model: Model) -> _Dereification:
             except ModelError:
                 pass
             else:
+                if dereified[0] not in inst and dereified[0] not in other:
+                    continue  # the source would be a constant, not a node
+
                 # migrate epidata
                 epidata: List[Epidatum] = []
                 if instance in alns:
